@@ -805,13 +805,18 @@ def bounded_retry(chk, P, prefix):
         x = io
         while x is not None and x[0] == "field":
             x = x[1]
-        if not (x is not None and x[0] == "binop" and x[1].startswith("Add") and mir.o_field_path(x[2])[1] == ["current"] and mir.o_const_value(x[3]) == 1):
+        plus_one = x is not None and (
+            (x[0] == "binop" and x[1].startswith("Add") and mir.o_field_path(x[2])[1] == ["current"] and mir.o_const_value(x[3]) == 1) or
+            (x[0] == "call" and x[1].callee.get("name") in ("saturating_add", "wrapping_add") and mir.o_field_path(b.origin(x[1].args[0]))[1] == ["current"]
+             and mir.o_const_value(b.origin(x[1].args[1])) == 1))
+        if not plus_one:
             return False, ("the attempt counter is advanced as %s, not `current + 1`: a clamped or otherwise adjusted counter changes how many "
                            "retries the configured maximum grants" % (o_str(io) if io else "?")), [], b.span
-        r = b.origin(0)
-        if not (r[0] == "binop" and r[1] == "Le"):
+        n = mir.norm_cmp(b.origin(0), lambda o: mir.o_field_path(o)[1] == ["current"])
+        if n is None or n[0] != "Le":
             return False, ("Retry::next returns %s: it must be `current <= max` after the increment, so that a maximum of n grants exactly n "
-                           "retries (with `<` the last one is lost)" % o_str(r)), [], b.span
+                           "retries (with `<` the last one is lost)" % o_str(b.origin(0))), [], b.span
+        r = ("binop", n[0], n[1], n[2])
         ln = mir.o_field_path(r[2])[1]
         rn = mir.o_field_path(r[3])[1]
         if ln != ["current"] or rn != ["max"]:
@@ -1002,6 +1007,19 @@ def tokio_blocking(chk, P, prefix):
         chk.ob("%s.R5:tokio::%s" % (prefix, fn), "blocking entry points never call block_on from inside an async context", f)
 
 
+def _is_len(o):
+    return o[0] == "call" and o[1].callee.get("name") == "len"
+
+
+def len_cmp(so):
+    """A switch origin that compares a Channel/Vec len() with something, normalised to ("binop", op, len_side, other) with the length
+    on the left whichever way round it was written; None otherwise."""
+    n = mir.norm_cmp(so, _is_len)
+    if n is None:
+        return None
+    return ("binop", n[0], n[1], n[2])
+
+
 # ---- C09 ----------------------------------------------------------------------------------------------------------------------------------------
 
 def send_rules(chk, P, prefix):
@@ -1014,8 +1032,8 @@ def send_rules(chk, P, prefix):
         # the capacity test: len() >= self.max_capacity, true edge -> clear
         test = None
         for bb, t in b.switches():
-            so = b.switch_origin(bb)
-            if so[0] == "binop" and so[2][0] == "call" and so[2][1].callee.get("name") == "len":
+            so = len_cmp(b.switch_origin(bb))
+            if so is not None:
                 test = (bb, so)
         if test is None:
             return False, "send has no capacity test", [], b.span
@@ -1053,8 +1071,8 @@ def send_rules(chk, P, prefix):
             return False, "try_send discards the queue", [], b.span
         ok = False
         for bb, vals, n in b.guards_of(pushes[0].bb):
-            so = b.switch_origin(bb)
-            if so[0] == "binop" and so[2][0] == "call" and so[2][1].callee.get("name") == "len":
+            so = len_cmp(b.switch_origin(bb))
+            if so is not None:
                 if mir.o_field_path(so[3])[1] != ["max_capacity"]:
                     return False, "length compared with %s" % o_str(so[3]), [], pushes[0].loc
                 taken = list(vals) != ["0"]
@@ -1086,8 +1104,8 @@ def send_rules(chk, P, prefix):
             return False, "the full arm hands back %s, not the caller's item" % o_str(b.origin(retry[0].args[1])), [], retry[0].loc
         # retry error is on the full edge
         for bb, vals, n in b.guards_of(retry[0].bb):
-            so = b.switch_origin(bb)
-            if so[0] == "binop" and so[2][0] == "call" and so[2][1].callee.get("name") == "len":
+            so = len_cmp(b.switch_origin(bb))
+            if so is not None:
                 taken = list(vals) != ["0"]
                 if (so[1] == "Lt" and taken) or (so[1] == "Ge" and not taken):
                     return False, "the item is handed back although there was room", [], retry[0].loc
